@@ -57,11 +57,16 @@ def cmd_check(args, vx):
         os.remove(ev_path)
     except FileNotFoundError:
         pass
-    jobs = [(u, False) for u in units] + [(u, True) for u in units]
+    def has_findings(u):
+        try:
+            return "#finding-" in open(os.path.join(vx.VERIF, "units", u + ".vrs")).read()
+        except OSError:
+            return False
+    jobs = [(u, False) for u in units] + [(u, True) for u in units] + [(u, "findings") for u in units if has_findings(u)]
     results = {}
     try:
         with concurrent.futures.ThreadPoolExecutor(max_workers=8) as ex:
-            futs = {ex.submit(vx.run_verus, u, c): (u, c) for (u, c) in jobs}
+            futs = {ex.submit(vx.run_verus, u, c is True, None, False, c == "findings"): (u, c) for (u, c) in jobs}
             for f in concurrent.futures.as_completed(futs):
                 results[futs[f]] = f.result()
     except ToolError as e:
@@ -107,6 +112,22 @@ def cmd_check(args, vx):
                         violations.append(info)
                 else:
                     other_failures.append(info)
+        # findings pass: obligations of recorded known findings (woven only there)
+        if (u, "findings") in results:
+            fres = results[(u, "findings")]
+            main_obl = set(vx.diag_info(res, d)["obligation"] for d in res.diags if vx.classify(d) == "obligation")
+            for d in fres.diags:
+                if vx.classify(d) != "obligation":
+                    continue
+                info = vx.diag_info(fres, d)
+                if info["obligation"] in main_obl:
+                    continue      # already reported by the main pass
+                if prop in info["tags"] or "*" in info["tags"]:
+                    km = known_match(known, prop, info)
+                    if km:
+                        known_hits.append((km, info))
+                    else:
+                        violations.append(info)
         # canary pass: every canary must fail
         n_can = sum(1 for l in can.gen.lines if "// CANARY" in l and "assert(false)" in l)
         failed_lines = set()
